@@ -16,7 +16,8 @@ use serde_derive::{Deserialize, Serialize};
 pub struct Attempt {
 	pub val: Val,
 	pub pres: PresCfg,
-	/// entry point that uses the configuration: 0 = to_datum, 1 = to_single_object, 2 = a container Writer built on it
+	/// entry point that uses the configuration: 0 = to_datum, 1 = to_single_object, 2 = a container Writer built on it,
+	/// 3 = a SerializerState used directly for two datums in a row
 	#[serde(default)]
 	pub via: u8,
 	/// at this serde call the caller's Serialize impl serializes SOMETHING ELSE (the first probe, through a fresh
@@ -82,6 +83,25 @@ fn attempt_via(
 					let r2 = w.into_inner().map(|_| ()).map_err(|e| e.to_string());
 					r1.and(r2)
 				}
+			};
+			(r, ctx.calls.get(), ctx.poison_fired.get(), ctx.poison_depth.get())
+		}
+		3 => {
+			// the serializer state used directly (what to_datum does inside), for TWO values on one state: the value, and
+			// the value once more — the state, its writer and the configuration go from one datum to the next
+			use serde::Serialize;
+			let ctx = PresCtx::new(env, pres, poison);
+			let mut st = serde_avro_fast::ser::SerializerState::from_writer(sink, cfg);
+			let r1 = Presented::new(val, ty, &ctx).serialize(st.serializer()).map_err(|e| e.to_string());
+			let r = match r1 {
+				Ok(()) => {
+					let ctx2 = PresCtx::new(env, pres, None);
+					let r2 = Presented::new(val, ty, &ctx2).serialize(st.serializer()).map_err(|e| e.to_string());
+					let _ = st.writer_mut();
+					let _w = st.into_writer();
+					r2
+				}
+				Err(e) => Err(e),
 			};
 			(r, ctx.calls.get(), ctx.poison_fired.get(), ctx.poison_depth.get())
 		}
@@ -209,9 +229,10 @@ impl Prop for C14 {
 			if pres.bytes_as_seq {
 				pres.len_none = rng.chance(3, 4);
 			}
-			let via = match rng.below(6) {
+			let via = match rng.below(7) {
 				0 => 1,
 				1 => 2,
+				2 => 3,
 				_ => 0,
 			};
 			let reenter_at = if rng.chance(1, 5) { Some(rng.below(24) as u32) } else { None };
